@@ -83,4 +83,18 @@ Definition resonance_bound (beta tolR : K) (l : list (K * (K * (K * K)))) (z : K
        else 0)
     else 0).
 
+(** imaginary time (susceptibility; terms with |P| >= tolR): a term is R e^{-tau P}/(1 - e^{-beta P}), 0 <= tau <= beta;
+    sup over tau of e^{-tau P} is max(1, e^{-beta P}) *)
+Definition tau_weight (beta P : K) : K :=
+  let e := nexp K NO (nopp K NO (beta * P)) in
+  (if ltb (n1 K NO) e then e else n1 K NO) / kabs (n1 K NO - e).
+Definition tau_dropped_bound (beta tolM : K) (terms : list (K * K)) : K :=
+  ksum terms (fun t => if ltb tolM (kabs (snd t)) then 0 else kabs (snd t) * tau_weight beta (fst t)).
+(** a pole moved by d changes the term by at most |R| d beta (1 + 1/|1 - e^{-beta P}|) times that weight (crude) *)
+Definition tau_merge_bound (beta : K) (wd : list (K * K * K)) : K :=
+  ksum wd (fun t =>
+    let P := fst (fst t) in let R := snd (fst t) in let d := snd t in
+    let e := nexp K NO (nopp K NO (beta * P)) in
+    kabs R * d * beta * tau_weight beta P * (n1 K NO + n1 K NO / kabs (n1 K NO - e))).
+
 End Trunc.
